@@ -340,7 +340,8 @@ class World:
         from ndn.security import DigestSha256Signer
         n = [comp(k) for k in name]
         signer = DigestSha256Signer() if sig else None
-        app_param = b'param' if has_params else (b'' if sig else None)
+        # has_params: False | True (non-empty) | 2 (ApplicationParameters present with zero length: still parameters)
+        app_param = (b'' if has_params == 2 else b'param') if has_params else (b'' if sig else None)
         w = bytearray(make_interest(n, InterestParam(nonce=9, lifetime=4000), app_param, signer=signer))
         if sig == 2:
             w[-1] ^= 0x55            # last byte of the signature value
